@@ -7,7 +7,7 @@ use pilota::prost::encoding::{self as enc, DecodeContext, WireType};
 use pilota::prost::{DecodeError, Message as PMessage};
 
 use crate::pcorpus_def::*;
-use crate::refenc::{put_uvarint, zigzag32, zigzag64, Span, SpanKind};
+use crate::refenc::{put_uvarint, put_uvarint_padded, zigzag32, zigzag64, Span, SpanKind};
 use crate::rng::Rng;
 
 // ------------------------------------------------------------------ SimBuf
@@ -86,23 +86,26 @@ pub struct PEnc {
     pub out: Vec<u8>,
     pub spans: Vec<Span>,
     depth: u16,
+    /// write some keys, length prefixes and values as over-wide varints (legal: decoders accept up to ten
+    /// bytes): 0 = never, n = about one value in n (decided by the value alone, see the thrift encoder)
+    pub pad: u8,
 }
 
 impl PEnc {
     pub fn new() -> Self {
-        PEnc { out: vec![], spans: vec![], depth: 0 }
+        PEnc { out: vec![], spans: vec![], depth: 0, pad: 0 }
     }
     fn span(&mut self, start: usize, kind: SpanKind) {
         self.spans.push(Span { start, end: self.out.len(), kind, depth: self.depth });
     }
     pub fn key(&mut self, tag: u32, wt: u8) {
         let s = self.out.len();
-        put_uvarint(&mut self.out, ((tag as u64) << 3) | wt as u64);
+        put_uvarint_padded(&mut self.out, ((tag as u64) << 3) | wt as u64, 10, self.pad);
         self.span(s, SpanKind::Type);
     }
     pub fn len_prefixed(&mut self, body: &[u8], payload: bool) {
         let s = self.out.len();
-        put_uvarint(&mut self.out, body.len() as u64);
+        put_uvarint_padded(&mut self.out, body.len() as u64, 10, self.pad);
         self.span(s, SpanKind::Len);
         let s = self.out.len();
         self.out.extend_from_slice(body);
@@ -113,7 +116,7 @@ impl PEnc {
     /// append a nested encoder's output as a length-delimited body, shifting its spans
     pub fn nested(&mut self, sub: PEnc) {
         let s = self.out.len();
-        put_uvarint(&mut self.out, sub.out.len() as u64);
+        put_uvarint_padded(&mut self.out, sub.out.len() as u64, 10, self.pad);
         self.span(s, SpanKind::Len);
         let base = self.out.len();
         self.out.extend_from_slice(&sub.out);
@@ -133,6 +136,7 @@ pub struct PKnobs {
     pub max_str: usize,
     pub unknown_pct: u64,
     pub present_pct: u64,
+    pub pad: u8,
 }
 
 impl PKnobs {
@@ -143,6 +147,7 @@ impl PKnobs {
             max_str: *r.pick(&[0usize, 3, 12, 40, 200]),
             unknown_pct: *r.pick(&[0u64, 10, 40]),
             present_pct: *r.pick(&[30u64, 60, 100]),
+            pad: *r.pick(&[0u8, 0, 0, 1, 3, 7]),
         }
     }
 }
@@ -179,15 +184,15 @@ impl<'a> PGen<'a> {
                     PK::Enum(_) => *self.r.pick(&[0u64, 1, 9, 5, u64::MAX]),
                     _ => varint_class(self.r),
                 };
-                put_uvarint(&mut e.out, v);
+                put_uvarint_padded(&mut e.out, v, 10, e.pad);
             }
             PK::Sint32 => {
                 e.key(tag, 0);
-                put_uvarint(&mut e.out, zigzag32(varint_class(self.r) as i32) as u64);
+                put_uvarint_padded(&mut e.out, zigzag32(varint_class(self.r) as i32) as u64, 10, e.pad);
             }
             PK::Sint64 => {
                 e.key(tag, 0);
-                put_uvarint(&mut e.out, zigzag64(varint_class(self.r) as i64));
+                put_uvarint_padded(&mut e.out, zigzag64(varint_class(self.r) as i64), 10, e.pad);
             }
             PK::Fixed32 | PK::Sfixed32 | PK::Float => {
                 e.key(tag, 5);
@@ -214,6 +219,7 @@ impl<'a> PGen<'a> {
     }
 
     pub fn scalar_pub(&mut self, e: &mut PEnc, tag: u32, kind: &PK) {
+        e.pad = self.k.pad;
         self.scalar(e, tag, kind)
     }
 
@@ -230,10 +236,10 @@ impl<'a> PGen<'a> {
         match kind {
             PK::Fixed32 | PK::Sfixed32 | PK::Float => out.extend_from_slice(&(self.r.next() as u32).to_le_bytes()),
             PK::Fixed64 | PK::Sfixed64 | PK::Double => out.extend_from_slice(&self.r.next().to_le_bytes()),
-            PK::Sint32 => put_uvarint(out, zigzag32(varint_class(self.r) as i32) as u64),
-            PK::Sint64 => put_uvarint(out, zigzag64(varint_class(self.r) as i64)),
-            PK::Bool => put_uvarint(out, self.r.below(2)),
-            _ => put_uvarint(out, varint_class(self.r)),
+            PK::Sint32 => put_uvarint_padded(out, zigzag32(varint_class(self.r) as i32) as u64, 10, self.k.pad),
+            PK::Sint64 => put_uvarint_padded(out, zigzag64(varint_class(self.r) as i64), 10, self.k.pad),
+            PK::Bool => put_uvarint_padded(out, self.r.below(2), 10, self.k.pad),
+            _ => put_uvarint_padded(out, varint_class(self.r), 10, self.k.pad),
         }
     }
 
@@ -242,6 +248,7 @@ impl<'a> PGen<'a> {
             PK::Msg(n) => {
                 e.key(tag, 2);
                 let mut sub = PEnc::new();
+                sub.pad = e.pad;
                 if depth < self.k.max_depth {
                     self.message(&mut sub, n, depth + 1);
                 }
@@ -287,6 +294,7 @@ impl<'a> PGen<'a> {
     }
 
     pub fn message(&mut self, e: &mut PEnc, name: &str, depth: usize) {
+        e.pad = self.k.pad;
         let Some(m) = self.corpus.msgs.iter().find(|m| m.name == name) else { return };
         let m = m.clone();
         let mut oneof_done: Vec<&'static str> = vec![];
@@ -347,6 +355,7 @@ impl<'a> PGen<'a> {
                     for _ in 0..n {
                         e.key(fl.tag, 2);
                         let mut ent = PEnc::new();
+                        ent.pad = e.pad;
                         let style = self.r.below(8);
                         if style != 0 {
                             self.scalar(&mut ent, 1, kk);
